@@ -201,6 +201,7 @@ def gen_pairs(ctx):
             return
         c = {"api": api, "src": src, "tgt": tgt, "cls": cls}
         c.update(kw)
+        c["history"] = (len(cases) % 2 == 0)      # every other request is repeated through the caches at the end
         cases.append(c)
 
     n_general = ctx.n(70, 700)
@@ -447,6 +448,7 @@ def judge_cover(case, out, res, api):
     on = needed(case, cols, rows)
     n_on = int(on.sum())
     case["_n_on"] = n_on
+    case["_n_total"] = int(cols.size)
     with np.errstate(all="ignore"):
         hull = on & (cols >= 0) & (cols <= W - 1) & (rows >= 0) & (rows <= H - 1)
     n_hull = int(hull.sum())
@@ -696,6 +698,15 @@ def judge(case, o):
         t = judge_same_crs_tight(case, res)
         if t:
             v.append(t)
+    if "history_err" in o:
+        v.append(("C11.history.driver", "history replay failed: %s" % (o["history_err"],)))
+    if "again" in o:
+        fresh = o["fresh"]
+        case["_history"] = True
+        if any(a != fresh for a in o["again"]):
+            v.append(("C11.history.%s" % api, "%s through its cache returns %s on repeated calls, the uncached computation %s"
+                      % ({"slicer": "crop_source_area (lru_cache)", "gas": "get_area_slices (JSON file cache)",
+                          "swath": "SwathSlicer (lru_cache of the chunk boxes)"}[api], o["again"], fresh)))
     if api == "slicer":
         if o.get("res_plain") != res:
             v.append(("C11.slicer.instrumented_path_differs", "get_slices() gives %s but get_slices_from_polygon(get_polygon_to_contain()) gives %s"
@@ -754,7 +765,12 @@ def run(ctx):
                 "degrees (diamond / staircase of hit chunks); scalar "
                 "streams for the kernels. A pair is non-trivial when at least one target pixel centre falls on the source grid "
                 "(so that the cover / non-overlap clauses say something); a scalar case when a clipping, tie, infinite or "
-                "reversed branch is taken; distinct = distinct inputs")
+                "reversed branch is taken; distinct = distinct inputs (sha1 of the canonical input). Fixed corpus first: the "
+                "witnesses of the five known findings and of the repaired one-pixel-thick defect. Every other request is "
+                "repeated twice at the end of the driver, in reverse order, through the caches (lru_cache of crop_source_area "
+                "with fresh equal objects, lru_cache(maxsize=10) of the swath chunk boxes, JSON file cache of "
+                "get_area_slices) and compared with the uncached result. Exhaustive sub-space: check_slice_orientation on "
+                "all (start, stop) in [-3,5]^2; everything else is sampled")
     cases = gen_pairs(ctx)
     scal = gen_scalar(ctx)
     obs = run_impl(ctx, cases + scal)
@@ -762,6 +778,7 @@ def run(ctx):
 
     # ---- property oracle on the implementation
     L_crop, L_arr, L_create, L_starts, L_gas, L_swath, L_ens, L_ori = [], [], [], [], [], [], [], []
+    sampled = set()       # one evidence sample per (api, input group): varied samples instead of the first few cases
     for c, o in zip(cases, obs_pairs):
         api = c["api"]
         if "setup_err" in o:
@@ -775,11 +792,21 @@ def run(ctx):
         ctx.count("outcome:%s:%s" % (api, outcome))
         if c.get("_outer_band_only"):
             ctx.count("nonoverlap_with_centres_only_in_outer_half_pixel_band")
+        if c.get("_history"):
+            ctx.count("history:%s_repeated_through_cache" % api)
         if "_bil_ok" in c:
             ctx.count("bilinear_neighbours_inside" if c["_bil_ok"] else "bilinear_neighbours_not_all_inside")
+        ctx.count("crs:%s<-%s" % (c["src"]["kind"], c["tgt"]["kind"]))
+        group = ("oblique_chunks" if c["cls"] == "swath_oblique" else "corpus" if c["cls"].endswith("corpus") else
+                 "one_pixel_thick_target" if thin_target(c) else "geos_source" if c["src"]["kind"] == "geos" else
+                 "same_crs" if "same_crs" in c["cls"] else "different_crs")
+        kind = "%s/%s" % (api, group)
+        first_of_kind = kind not in sampled and n_on > 0
+        sampled.add(kind) if first_of_kind else None
         ctx.case((api, repr(c["src"]), repr(c["tgt"]), repr(c.get("chunks"))), nontrivial=n_on > 0,
-                 sample={api: {"src": c["src"], "tgt": c["tgt"], "chunks": c.get("chunks")}, "impl": res,
-                         "on_grid_target_pixels": n_on})
+                 sample=None if not first_of_kind else {kind: {"src": c["src"], "tgt": c["tgt"], "chunks": c.get("chunks"), "class": c["cls"]},
+                         "impl": res, "target_pixel_centres": int(c.get("_n_total", 0)), "on_source_grid": n_on,
+                         "inside_hull_of_source_centres": c.get("_n_hull", 0)})
         for key, what in verdicts:
             ctx.add_failure(key, what, {"case": public_case(c), "impl": res})
         # ---- correspondence material
@@ -838,7 +865,8 @@ def run(ctx):
             if not ("sl" in res or (res.get("err") == "IncompatibleAreas" and res.get("msg") in STAGE)):
                 continue
             exp = [0] + res["sl"] if "sl" in res else [STAGE[res["msg"]], 0, 0, 0, 0]
-            ctx.case(("sa", repr(c["src"]), repr(b)), nontrivial=exp[0] != 0 or exp[1] == 0 or exp[3] == 0)
+            ctx.case(("sa", repr(c["src"]), repr(b)), nontrivial=exp[0] != 0 or exp[1] == 0 or exp[3] == 0,
+                     sample=None if ("k", exp[0]) in sampled or sampled.add(("k", exp[0])) else {"kernel/bounds_to_slices_stage_%d" % exp[0]: {"area": c["src"], "bounds": [repr(v) for v in b]}, "impl": res})
             ctx.count("scalar:sanitize_stage_%d" % exp[0])
             L_crop.append("(true, true, %s, (%s, %s, %s, %s), %s)" % (farea(c["src"]), fhex(b[0]), fhex(b[1]), fhex(b[2]), fhex(b[3]), zl(exp)))
         elif k == "ensure_int":
